@@ -160,6 +160,7 @@ type rawsocketLink struct {
 	ok   bool
 	mu   sync.Mutex
 	dropped bool
+	ready   chan struct{} // closed when the handshake has finished (either way)
 	// framing observations for C15
 	Pongs [][]byte
 }
@@ -168,7 +169,7 @@ const rsClientRecvNibble = 0xf
 
 func newRawsocketLink(e *Engine, s *SimSess, ser string) *rawsocketLink {
 	cc, sc := net.Pipe()
-	l := &rawsocketLink{conn: cc, ser: serializerFor(ser), in: newInbuf()}
+	l := &rawsocketLink{conn: cc, ser: serializerFor(ser), in: newInbuf(), ready: make(chan struct{})}
 	qsize := s.Cfg.QSize
 	if qsize == 0 {
 		qsize = 64
@@ -192,16 +193,19 @@ func newRawsocketLink(e *Engine, s *SimSess, ser string) *rawsocketLink {
 	go func() {
 		if _, err := cc.Write([]byte{0x7f, rsClientRecvNibble<<4 | proto, 0, 0}); err != nil {
 			l.in.setClosed()
+			close(l.ready)
 			return
 		}
 		var hs [4]byte
 		if _, err := io.ReadFull(cc, hs[:]); err != nil || hs[0] != 0x7f || hs[1]&0xf != proto {
 			l.in.setClosed()
+			close(l.ready)
 			return
 		}
 		l.mu.Lock()
 		l.ok = true
 		l.mu.Unlock()
+		close(l.ready)
 		l.readLoop()
 	}()
 	return l
@@ -245,6 +249,11 @@ type badFrame struct {
 func (b *badFrame) MessageType() wamp.MessageType { return wamp.MessageType(-1) }
 
 func (l *rawsocketLink) send(m wamp.Message, quit <-chan struct{}) bool {
+	select {
+	case <-l.ready:
+	case <-quit:
+		return false
+	}
 	b, err := l.ser.Serialize(m)
 	if err != nil {
 		return true // dropped by the (client side) serializer; nothing reaches the router
